@@ -186,4 +186,21 @@ def specExpandPieces (ext nc dotglob : Bool) (ps : List PatPiece) (names : List 
     let lead := match ps with | p :: _ => startsWithDot p.raw | [] => false
     sortStrs (names.filter fun n => matchB nc q n && (!startsWithDot n || dotglob || lead))
 
+/-! ## how a character was written does not matter to what it matches -/
+
+def eraseSM (m : SM) : SM := ⟨false, m.c⟩
+
+def eraseMember : Member → Member
+  | .cls n => .cls n
+  | .range f t => .range (eraseSM f) (eraseSM t)
+  | .single m => .single (eraseSM m)
+
+/-- forget which bracket members were written with a backslash (only the emitted regex text cares) -/
+def eraseEsc : Pat → Pat
+  | .bracket inv ms => .bracket inv (ms.map eraseMember)
+  | .seq a b => .seq (eraseEsc a) (eraseEsc b)
+  | .alt a b => .alt (eraseEsc a) (eraseEsc b)
+  | .group k b => .group k (eraseEsc b)
+  | p => p
+
 end BrushVerif.Glob
